@@ -35,6 +35,10 @@ def ref_outputs(psi, times, n_out, outputs=None):
     return out
 
 
+# when set to a list, every simulate call of every AnalyticModel appends its parameter vector (a spy for the harness)
+SIM_LOG = [None]
+
+
 class AnalyticModel(chi.MechanisticModel):
     def __init__(self, n_out=1, n_par=2, par_names=None, out_names=None):
         super(AnalyticModel, self).__init__()
@@ -98,6 +102,8 @@ class AnalyticModel(chi.MechanisticModel):
     def simulate(self, parameters, times):
         self.n_simulate_calls += 1
         psi = np.array(parameters, dtype=float)
+        if SIM_LOG[0] is not None:
+            SIM_LOG[0].append(tuple(psi.tolist()))
         if psi.shape != (self._n_par,):
             raise ValueError('AnalyticModel: expected %d parameters, got shape %s' % (self._n_par, psi.shape))
         times = np.array(times, dtype=float)
